@@ -8,6 +8,7 @@ import ast
 
 from .. import astutil as A
 from ..fa import FA
+from ..loader import AnalysisError
 from .valeq import check_typed_identity, check_json_bytes, check_enum_distinct
 from .c16 import sibling_reference_sites
 from .ladders import extract_ladder, check_ladder_order, repo_subclass_pairs, handler_ladder
@@ -15,11 +16,663 @@ from . import partition_model as PM
 
 RL = "runner_local.memento_run_local"
 
+
+# ---------------------------------------------------------------------------------------------
+# Path-sensitive symbolic view of one function (used by R3 / R4).
+#
+# The rules below decide clauses of the form "on every path on which <condition>, <place> holds
+# <value>" ("a hit returns the stored value", "the value given to memoize is the one that was
+# classified", "a failing call returns its exception object").  They are decided on the product of the
+# statement CFG with a symbolic store: every local (and every attribute / subscript location that is
+# assigned) is mapped to the *expression that was assigned to it along this path*, written over
+# parameters, globals, calls and opaque tokens (caught exception, loop variable).  Names therefore do
+# not matter (temporaries, result variables, aliases of `stack_frame.memento`, tuple unpacking of a
+# named tuple all disappear), and neither does the shape of the control flow: a state also carries the
+# branch literals it has passed (only those a rule asks to watch), tests that are decided by the store
+# (`None is not None`, `ExistingMementoResult(result=None, valid_result=False).valid_result`) prune the
+# infeasible branch, and a rule may cut edges ("the look-up found nothing") and ask what is still
+# reachable.
+# ---------------------------------------------------------------------------------------------
+_PARSED = {}
+
+
+def _parse(text):
+    """Expression of a text produced by the symbolic store (shared: callers must not modify it)."""
+    if text not in _PARSED:
+        if len(_PARSED) > 20000:
+            _PARSED.clear()
+        _PARSED[text] = ast.parse(text, mode="eval").body
+    return _PARSED[text]
+
+
+def _is_pure_dotted(e):
+    return A.dotted(e) is not None
+
+
+def dnf(test, positive=True):
+    """What taking a branch test with the given polarity implies: a disjunction (list) of conjunctions (lists)
+    of literals (expr, polarity)."""
+    t = test
+    if isinstance(t, ast.UnaryOp) and isinstance(t.op, ast.Not):
+        return dnf(t.operand, not positive)
+    if isinstance(t, ast.BoolOp):
+        parts = [dnf(v, positive) for v in t.values]
+        if (isinstance(t.op, ast.And) and positive) or (isinstance(t.op, ast.Or) and not positive):
+            out = [[]]
+            for p_ in parts:
+                out = [a + b for a in out for b in p_]
+                if len(out) > 64:
+                    return [[]]
+            return out
+        return [c for p_ in parts for c in p_]
+    if isinstance(t, ast.Compare) and len(t.ops) == 1:
+        neg = {ast.IsNot: ast.Is, ast.NotEq: ast.Eq, ast.NotIn: ast.In}
+        op = t.ops[0]
+        l, r = t.left, t.comparators[0]
+        if type(op) in neg:
+            op = neg[type(op)]()
+            positive = not positive
+        if isinstance(op, ast.Eq) and A.norm(r) < A.norm(l):
+            l, r = r, l
+        t = ast.Compare(left=l, ops=[op], comparators=[r])
+    return [[(t, positive)]]
+
+
+def certain(d):
+    """Literals (text, polarity, expr) that hold in every disjunct of a dnf."""
+    if not d:
+        return []
+    sets = [{(A.norm(e), p) for (e, p) in c} for c in d]
+    common = set.intersection(*sets)
+    out, seen = [], set()
+    for (e, p) in d[0]:
+        k = (A.norm(e), p)
+        if k in common and k not in seen:
+            seen.add(k)
+            out.append((k[0], p, e))
+    return out
+
+
+class Sym:
+    def __init__(self, fa, watch=None, cut=None, stop=None, tuples=None, returns=None, rewrite=None, truth=None, cap=40000):
+        """watch(text, expr) -> bool : literals to remember along a path (also used to prune contradictions)
+        cut(dnf) -> bool            : edges not to follow
+        stop(literals) -> bool      : path classes not to continue
+        tuples  {ctor: [fields]}     : named tuples (field projection of a constructor call is folded)
+        returns {function: ctor}     : functions returning such a tuple (x[0] is read as x.<field0>)
+        rewrite(expr) -> expr|None   : domain facts applied bottom-up
+        truth(expr) -> bool|None     : extra decided tests"""
+        self.fa = fa
+        self.cfg = fa.cfg
+        self.watch = watch or (lambda text, e: False)
+        self.cut = cut
+        self.stop = stop
+        self.tuples = tuples or {}
+        self.rets = returns or {}
+        self.rewrite = rewrite
+        self.xtruth = truth
+        self.cap = cap
+        self._tok = {}
+        self._produced = {}
+        self.states = {}
+        self._explore()
+
+    # ---- expressions ---------------------------------------------------------------------------
+    def _p(self, text):
+        import copy
+        return copy.deepcopy(_parse(text))
+
+    def token(self, kind, astnode, name=""):
+        k = (kind, id(astnode), name)
+        if k not in self._tok:
+            self._tok[k] = "_%s%d%s" % (kind, len(self._tok), ("_" + name) if name else "")
+        return self._tok[k]
+
+    def simplify(self, n):
+        if isinstance(n, ast.Call) and isinstance(n.func, ast.Name) and n.func.id == "cast" and len(n.args) == 2:
+            return n.args[1]
+        if isinstance(n, (ast.Attribute, ast.Subscript)) and isinstance(n.value, ast.Call):
+            ctor = A.call_attr(n.value)
+            if ctor in self.tuples and not any(isinstance(a, ast.Starred) for a in n.value.args):
+                fields = self.tuples[ctor]
+                idx = None
+                if isinstance(n, ast.Attribute) and n.attr in fields:
+                    idx = fields.index(n.attr)
+                elif isinstance(n, ast.Subscript) and isinstance(n.slice, ast.Constant) and isinstance(n.slice.value, int) \
+                        and 0 <= n.slice.value < len(fields):
+                    idx = n.slice.value
+                if idx is not None:
+                    v = A.arg_or_kw(n.value, idx, fields[idx])
+                    if v is not None:
+                        return v
+            if isinstance(n, ast.Subscript) and ctor in self.rets and isinstance(n.slice, ast.Constant) and isinstance(n.slice.value, int):
+                fields = self.tuples.get(self.rets[ctor], [])
+                if 0 <= n.slice.value < len(fields):
+                    return ast.Attribute(value=n.value, attr=fields[n.slice.value], ctx=ast.Load())
+        if self.rewrite is not None:
+            r = self.rewrite(n)
+            if r is not None:
+                return r
+        return n
+
+    def sub(self, expr, env):
+        """Copy of `expr` with every location replaced by what the store holds for it."""
+        import copy
+        bound = set()
+        for x in ast.walk(expr):
+            if isinstance(x, ast.comprehension):
+                bound |= {n.id for n in ast.walk(x.target) if isinstance(n, ast.Name)}
+            if isinstance(x, ast.Lambda):
+                bound |= {a.arg for a in x.args.args + x.args.kwonlyargs + x.args.posonlyargs}
+        sym = self
+
+        class T(ast.NodeTransformer):
+            def visit_Name(self, n):
+                if isinstance(n.ctx, ast.Load) and n.id not in bound and n.id in env:
+                    return sym._p(env[n.id])
+                return n
+
+            def visit_Attribute(self, n):
+                self.generic_visit(n)
+                n.ctx = ast.Load()
+                k = A.norm(n)
+                if k in env:
+                    return sym._p(env[k])
+                return sym.simplify(n)
+
+            def visit_Subscript(self, n):
+                self.generic_visit(n)
+                n.ctx = ast.Load()
+                k = A.norm(n)
+                if k in env:
+                    return sym._p(env[k])
+                return sym.simplify(n)
+
+            def visit_Call(self, n):
+                self.generic_visit(n)
+                return sym.simplify(n)
+
+            def visit_NamedExpr(self, n):
+                return self.visit(n.value)  # `(x := e)` has the value of e
+
+        return T().visit(copy.deepcopy(expr))
+
+    def text(self, expr, env):
+        return A.norm(self.sub(expr, env))
+
+    def loc(self, target, env):
+        """Store key of an assignment target."""
+        if isinstance(target, ast.Name):
+            return target.id
+        if isinstance(target, ast.Attribute):
+            return A.norm(ast.Attribute(value=self.sub(target.value, env), attr=target.attr, ctx=ast.Load()))
+        if isinstance(target, ast.Subscript):
+            return A.norm(ast.Subscript(value=self.sub(target.value, env), slice=self.sub(target.slice, env), ctx=ast.Load()))
+        return None
+
+    def truth(self, t):
+        """Three-valued truth of an (already substituted) test."""
+        if isinstance(t, ast.Constant):
+            return bool(t.value)
+        if isinstance(t, ast.UnaryOp) and isinstance(t.op, ast.Not):
+            r = self.truth(t.operand)
+            return None if r is None else (not r)
+        if isinstance(t, ast.BoolOp):
+            rs = [self.truth(v) for v in t.values]
+            if isinstance(t.op, ast.And):
+                if any(r is False for r in rs):
+                    return False
+                return True if all(r is True for r in rs) else None
+            if any(r is True for r in rs):
+                return True
+            return False if all(r is False for r in rs) else None
+        if isinstance(t, ast.Compare) and len(t.ops) == 1:
+            op, l, r = t.ops[0], t.left, t.comparators[0]
+            if isinstance(op, (ast.Is, ast.IsNot, ast.Eq, ast.NotEq)):
+                same = None
+                if isinstance(l, ast.Constant) and isinstance(r, ast.Constant):
+                    same = (l.value is r.value) if isinstance(op, (ast.Is, ast.IsNot)) else (l.value == r.value and type(l.value) is type(r.value))
+                elif _is_pure_dotted(l) and _is_pure_dotted(r) and A.norm(l) == A.norm(r) and not self.fa.df.is_local(A.norm(l).split(".")[0]):
+                    same = True
+                elif isinstance(op, (ast.Is, ast.IsNot)):
+                    # a caught exception object is not None
+                    for (a_, b_) in ((l, r), (r, l)):
+                        if A.is_none(b_) and isinstance(a_, ast.Name) and a_.id.startswith("_exc"):
+                            same = False
+                        # nor is a named tuple (constructed here, or returned by a function known to return one)
+                        if A.is_none(b_) and isinstance(a_, ast.Call) and (A.call_attr(a_) in self.tuples or A.call_attr(a_) in self.rets):
+                            same = False
+                if same is not None:
+                    return same if isinstance(op, (ast.Is, ast.Eq)) else (not same)
+        if self.xtruth is not None:
+            return self.xtruth(t)
+        return None
+
+    # ---- exploration -----------------------------------------------------------------------------
+    def _feasible(self, d, lits):
+        """The disjuncts of a dnf that neither the store nor the literals already passed refute."""
+        out = []
+        for c in d:
+            ok = True
+            for (e, p) in c:
+                tv = self.truth(e)
+                if (tv is not None and tv != p) or (A.norm(e), not p) in lits:
+                    ok = False
+                    break
+            if ok:
+                out.append(c)
+        return out
+
+    def _fit(self, text, astnode, name):
+        if len(text) > 700:
+            return self.token("big", astnode, "".join(ch if ch.isalnum() else "_" for ch in name)[:20])
+        return text
+
+    def _bind(self, env, key, text, astnode):
+        if key is None:
+            return
+        # rebinding a name invalidates what was recorded about locations written through it
+        if key.isidentifier():
+            for k in [k for k in env if k.startswith(key + ".") or k.startswith(key + "[")]:
+                del env[k]
+        text = self._fit(text, astnode, key)
+        # a value that keeps wrapping what the same statement produced before (a loop folding into one variable) is
+        # replaced by one opaque token, so that the exploration converges
+        prod = self._produced.setdefault((id(astnode), key), [])
+        if text not in prod:
+            if len(prod) >= 3 and any(pv in text for pv in prod):
+                text = self.token("big", astnode, "".join(ch if ch.isalnum() else "_" for ch in key)[:20])
+            if text not in prod:
+                prod.append(text)
+        env[key] = text
+
+    def _assign_target(self, env, env_in, t, vtext, astnode):
+        if isinstance(t, (ast.Tuple, ast.List)):
+            for i, e in enumerate(t.elts):
+                if isinstance(e, ast.Starred):
+                    self._assign_target(env, env_in, e.value, self.token("rest", astnode, str(i)), astnode)
+                else:
+                    sub = self.simplify(ast.Subscript(value=self._p(vtext), slice=ast.Constant(value=i), ctx=ast.Load()))
+                    self._assign_target(env, env_in, e, A.norm(sub), astnode)
+            return
+        self._bind(env, self.loc(t, env_in), vtext, astnode)
+
+    def arms(self, value, env, lits=frozenset()):
+        """A value that is a conditional expression, split into its cases: [(literals, text)] (infeasible arms
+        dropped); any other value is its own single case."""
+        if not isinstance(value, ast.IfExp):
+            return [(lits, self.text(value, env))]
+        out = []
+        t = self.sub(value.test, env)
+        verdict = self.truth(t)
+        for (pol, arm) in ((True, value.body), (False, value.orelse)):
+            if verdict is not None and verdict != pol:
+                continue
+            dd = self._feasible(dnf(t, pol), lits)
+            if not dd:
+                continue
+            cs = certain(dd)
+            out += self.arms(arm, env, lits | {(tx, p) for (tx, p, e) in cs if self.watch(tx, e)})
+        return out
+
+    def _step(self, nd, env_in, lits):
+        """[(store, literals)] after executing node `nd` normally (several when a conditional expression is assigned)."""
+        a = nd.ast
+        if nd.kind == "stmt" and isinstance(a, (ast.Assign, ast.AnnAssign)) and isinstance(a.value, ast.IfExp):
+            out = []
+            for (l2, v) in self.arms(a.value, env_in, lits):
+                env = dict(env_in)
+                for t in (a.targets if isinstance(a, ast.Assign) else [a.target]):
+                    self._assign_target(env, env_in, t, v, a)
+                out.append((env, l2))
+            return out
+        return [(self._step1(nd, env_in), lits)]
+
+    def _step1(self, nd, env_in):
+        a = nd.ast
+        env = dict(env_in)
+        if a is None:
+            return env
+        if nd.kind == "stmt":
+            if isinstance(a, ast.Assign):
+                v = self.text(a.value, env_in)
+                for t in a.targets:
+                    self._assign_target(env, env_in, t, v, a)
+            elif isinstance(a, ast.AnnAssign) and a.value is not None:
+                self._assign_target(env, env_in, a.target, self.text(a.value, env_in), a)
+            elif isinstance(a, ast.AugAssign):
+                k = self.loc(a.target, env_in)
+                if k is not None:
+                    import copy
+                    load = copy.deepcopy(a.target)
+                    for x in ast.walk(load):
+                        if hasattr(x, "ctx"):
+                            x.ctx = ast.Load()
+                    v = self.text(ast.BinOp(left=load, op=a.op, right=a.value), env_in)
+                    if k in env_in and env_in[k].startswith("_big"):
+                        v = env_in[k]
+                    self._bind(env, k, v, a)
+            elif isinstance(a, ast.Delete):
+                for t in a.targets:
+                    k = self.loc(t, env_in)
+                    if k in env:
+                        del env[k]
+        elif nd.kind == "for":
+            for n in ast.walk(a.target):
+                if isinstance(n, ast.Name):
+                    self._bind(env, n.id, self.token("for", a, n.id), a)
+        elif nd.kind == "with":
+            for it in a.items:
+                if it.optional_vars is not None:
+                    for n in ast.walk(it.optional_vars):
+                        if isinstance(n, ast.Name):
+                            self._bind(env, n.id, self.token("with", a, n.id), a)
+        elif nd.kind == "except":
+            if a.name:
+                self._bind(env, a.name, self.token("exc", a), a)
+        # walrus
+        if nd.kind in ("stmt", "test"):
+            for sub_ in A.walk_local(a):
+                if isinstance(sub_, ast.NamedExpr) and isinstance(sub_.target, ast.Name):
+                    self._bind(env, sub_.target.id, self.text(sub_.value, env_in), a)
+        return env
+
+    def exc_token(self, handler):
+        return self.token("exc", handler)
+
+    def handler_mark(self, handler):
+        return ("@except:%s" % self.token("exc", handler), True)
+
+    def _explore(self):
+        cfg = self.cfg
+        start = (cfg.entry, (), frozenset())
+        seen = {start}
+        work = [start]
+        while work:
+            st = work.pop()
+            n, envk, lits = st
+            env_in = dict(envk)
+            self.states.setdefault(n, []).append((env_in, lits))
+            nd = cfg.node(n)
+            if nd.kind == "except":
+                lits = lits | {self.handler_mark(nd.ast)}
+            if nd.kind == "for":
+                # a new iteration: what was learnt about the previous element no longer holds
+                tks = [self.token("for", nd.ast, x.id) for x in ast.walk(nd.ast.target) if isinstance(x, ast.Name)]
+                lits = frozenset(x for x in lits if not any(tk in x[0] for tk in tks))
+            env_out = None
+            verdict, d_t, d_f = None, None, None
+            is_test = nd.kind == "test" and not isinstance(self.fa.pm.get(nd.ast), ast.While)
+            if nd.kind == "test":
+                t = self.sub(nd.ast, env_in)
+                verdict = self.truth(t)
+                if is_test:
+                    d_t, d_f = dnf(t, True), dnf(t, False)
+            for (d, l) in cfg.succ[n]:
+                nl = lits
+                if l == "exc":
+                    alts = [(env_in, lits)]
+                else:
+                    if env_out is None:
+                        env_out = self._step(nd, env_in, lits)
+                    alts = env_out
+                if nd.kind == "test" and l in ("T", "F"):
+                    if verdict is not None and verdict != (l == "T"):
+                        continue
+                    if is_test:
+                        dd = self._feasible(d_t if l == "T" else d_f, lits)
+                        if not dd:
+                            continue
+                        cs = certain(dd)
+                        if any((tx, not p) in lits for (tx, p, e) in cs):
+                            continue
+                        if self.cut is not None and self.cut(dd):
+                            continue
+                        add = {(tx, p) for (tx, p, e) in cs if self.watch(tx, e)}
+                        if add:
+                            alts = [(e2, l2 | add) for (e2, l2) in alts]
+                for (env2, nl) in alts:
+                    if self.stop is not None and self.stop(nl):
+                        continue
+                    nxt = (d, tuple(sorted(env2.items())), nl)
+                    if nxt not in seen:
+                        seen.add(nxt)
+                        if len(seen) > self.cap:
+                            raise AnalysisError("%s: too many path classes for the symbolic store" % self.fa.qual)
+                        work.append(nxt)
+
+    # ---- queries -----------------------------------------------------------------------------------
+    def at(self, astnode):
+        """[(store, literals)] of the states in which the statement / expression `astnode` is evaluated."""
+        out = []
+        for i in self.fa.nodes(astnode):
+            out += self.states.get(i, [])
+        return out
+
+    def reached(self, ids):
+        return [i for i in ids if i in self.states]
+
+    def return_states(self):
+        """[(return statement, store, literals, text of the returned value)]"""
+        out = []
+        for r in self.fa.returns():
+            for (env, lits) in self.at(r):
+                if r.value is None:
+                    out.append((r, env, lits, "None"))
+                else:
+                    out += [(r, env, l2, v) for (l2, v) in self.arms(r.value, env, lits)]
+        return out
+
+
+def namedtuple_fields(ck, modname, name):
+    """Field names of a NamedTuple declared in `modname` (functional or class form)."""
+    mod = ck.repo.module(modname)
+    for st in mod.tree.body:
+        if isinstance(st, ast.Assign) and any(isinstance(t, ast.Name) and t.id == name for t in st.targets) and isinstance(st.value, ast.Call) \
+                and A.call_attr(st.value) in ("NamedTuple", "namedtuple") and len(st.value.args) >= 2:
+            spec = st.value.args[1]
+            if isinstance(spec, (ast.List, ast.Tuple)):
+                out = []
+                for e in spec.elts:
+                    if isinstance(e, (ast.Tuple, ast.List)) and e.elts and A.const_str(e.elts[0]):
+                        out.append(A.const_str(e.elts[0]))
+                    elif A.const_str(e):
+                        out.append(A.const_str(e))
+                if out:
+                    return out
+            if A.const_str(spec):
+                return A.const_str(spec).replace(",", " ").split()
+        if isinstance(st, ast.ClassDef) and st.name == name and any("NamedTuple" in A.norm(b) for b in st.bases):
+            return [s.target.id for s in st.body if isinstance(s, ast.AnnAssign) and isinstance(s.target, ast.Name)]
+    raise AnalysisError("%s.%s: named tuple declaration not found" % (modname, name))
+
+
+def exact_class(ck, call):
+    """Class of the object a call constructs, when that is evident: `Cls(...)`, or a function of the
+    repository all of whose returns are `Cls(...)`."""
+    if not isinstance(call, ast.Call):
+        return None
+    d = A.call_dotted(call)
+    if not d:
+        return None
+    parts = d.split(".")
+    cl = ck.repo.classes_named(parts[-1])
+    if len(cl) == 1:
+        return cl[0]
+    if len(parts) >= 2:
+        for c in ck.repo.classes_named(parts[-2]):
+            m = ck.repo.find_method(c, parts[-1])
+            if m is not None:
+                rets = [r for r in A.all_stmts(m.node) if isinstance(r, ast.Return)]
+                kinds = set()
+                for r in rets:
+                    k = ck.repo.classes_named(A.call_attr(r.value) or "") if isinstance(r.value, ast.Call) else []
+                    kinds.add(k[0] if len(k) == 1 else None)
+                if len(kinds) == 1 and None not in kinds:
+                    return kinds.pop()
+    return None
+
+
+def isinstance_truth(ck, t):
+    """isinstance(<constructed object>, <repository class>) decided by the class hierarchy."""
+    it = A.isinstance_types(t)
+    if it is None or not isinstance(t.args[0], ast.Call):
+        return None
+    k = exact_class(ck, t.args[0])
+    if k is None:
+        return None
+    res = False
+    for tn in it[1]:
+        cands = ck.repo.classes_named(tn.split(".")[-1])
+        if len(cands) != 1:
+            return None
+        if ck.repo.is_subclass(k, cands[0]):
+            res = True
+    return res
+
+
+def possible_values(fa, expr, at, _depth=0):
+    """The expressions a value can stand for: a local is followed to its definitions, a loop variable over a
+    literal table to the table's entries, a conditional expression to both arms."""
+    if _depth > 6:
+        return [expr]
+    if isinstance(expr, ast.IfExp):
+        return possible_values(fa, expr.body, at, _depth + 1) + possible_values(fa, expr.orelse, at, _depth + 1)
+    if isinstance(expr, ast.Name) and fa.df.is_local(expr.id):
+        out = []
+        for d in fa.df.reaching(at, expr.id):
+            if d.kind == "assign" and d.value is not None:
+                out += possible_values(fa, d.value, d.node, _depth + 1)
+            elif d.kind == "for" and isinstance(d.stmt, (ast.For, ast.AsyncFor)):
+                it = d.stmt.iter
+                if isinstance(it, ast.Name):
+                    ds = fa.df.reaching(d.node, it.id)
+                    if len(ds) == 1 and ds[0].kind == "assign" and ds[0].value is not None:
+                        it = ds[0].value
+                items = None
+                if isinstance(it, (ast.Tuple, ast.List)):
+                    items = list(it.elts)
+                elif isinstance(it, ast.Call) and A.call_attr(it) == "items" and isinstance(A.call_recv(it), ast.Dict):
+                    dd = A.call_recv(it)
+                    items = [ast.Tuple(elts=[k, v], ctx=ast.Load()) for k, v in zip(dd.keys, dd.values)]
+                elif isinstance(it, ast.Call) and A.call_attr(it) == "values" and isinstance(A.call_recv(it), ast.Dict):
+                    items = list(A.call_recv(it).values)
+                if items is None:
+                    return [expr]
+                tg = d.stmt.target
+                if isinstance(tg, ast.Name):
+                    out += items
+                elif isinstance(tg, (ast.Tuple, ast.List)):
+                    idx = [i for i, e in enumerate(tg.elts) if isinstance(e, ast.Name) and e.id == expr.id]
+                    if not idx or not all(isinstance(x, (ast.Tuple, ast.List)) and len(x.elts) == len(tg.elts) for x in items):
+                        return [expr]
+                    out += [x.elts[idx[0]] for x in items]
+                else:
+                    return [expr]
+            else:
+                return [expr]
+        return out or [expr]
+    # a look-up in a literal table (possibly bound to a local or module-level name): any of its values
+    tab, extra = None, []
+    if isinstance(expr, ast.Subscript):
+        tab = expr.value
+    elif isinstance(expr, ast.Call) and A.call_attr(expr) == "get" and A.call_recv(expr) is not None and 1 <= len(expr.args) <= 2:
+        tab, extra = A.call_recv(expr), list(expr.args[1:2])
+    if tab is not None:
+        ent = table_entries(fa, tab, at)
+        if ent:
+            return [v for (_k, v) in ent] + extra
+    return [expr]
+
+
 # calls that can raise inside exception reconstruction, with the exception they signal
 MAY_RAISE = {
     "import_module": ("ImportError", "ModuleNotFoundError", "Exception"),
+    "__import__": ("ImportError", "ModuleNotFoundError", "Exception"),
     "getattr": ("AttributeError", "Exception"),
 }
+
+
+def _literal_seq(fa, it, at):
+    """Elements of a literal tuple / list / set (possibly bound to a local or a module-level name), else None."""
+    if isinstance(it, ast.Name):
+        if fa.df.is_local(it.id):
+            ds = fa.df.reaching(at, it.id)
+            if len(ds) == 1 and ds[0].kind == "assign" and ds[0].value is not None:
+                return _literal_seq(fa, ds[0].value, ds[0].node)
+            return None
+        v = fa.fi.module.assigns.get(it.id)
+        return _literal_seq(fa, v, at) if v is not None else None
+    if isinstance(it, (ast.Tuple, ast.List, ast.Set)):
+        return list(it.elts)
+    return None
+
+
+def table_entries(fa, expr, at, _depth=0):
+    """(key, value) pairs of a dictionary-building expression: a literal (with ** parts), a comprehension over a
+    literal sequence, dict.fromkeys, `a | b`, a local / module-level name bound to one of these.  None if not understood."""
+    if _depth > 6 or expr is None:
+        return None
+    if isinstance(expr, ast.Dict):
+        out = []
+        for k, v in zip(expr.keys, expr.values):
+            if k is None:
+                sub = table_entries(fa, v, at, _depth + 1)
+                if sub is None:
+                    return None
+                out += sub
+            else:
+                out.append((k, v))
+        return out
+    if isinstance(expr, ast.DictComp) and len(expr.generators) == 1 and not expr.generators[0].ifs:
+        g = expr.generators[0]
+        seq = _literal_seq(fa, g.iter, at)
+        if seq is not None and isinstance(g.target, ast.Name) and isinstance(expr.key, ast.Name) and expr.key.id == g.target.id \
+                and g.target.id not in A.names_in(expr.value):
+            return [(e, expr.value) for e in seq]
+        return None
+    if isinstance(expr, ast.Call) and A.call_dotted(expr) == "dict.fromkeys" and len(expr.args) == 2:
+        seq = _literal_seq(fa, expr.args[0], at)
+        return [(e, expr.args[1]) for e in seq] if seq is not None else None
+    if isinstance(expr, ast.Call) and A.call_dotted(expr) == "dict" and len(expr.args) == 1 and not expr.keywords:
+        return table_entries(fa, expr.args[0], at, _depth + 1)
+    if isinstance(expr, ast.BinOp) and isinstance(expr.op, ast.BitOr):
+        l, r = table_entries(fa, expr.left, at, _depth + 1), table_entries(fa, expr.right, at, _depth + 1)
+        return None if l is None or r is None else l + r
+    if isinstance(expr, ast.Name):
+        if fa.df.is_local(expr.id):
+            ds = [d for d in fa.df.reaching(at, expr.id)]
+            if len(ds) == 1 and ds[0].kind == "assign" and ds[0].value is not None:
+                return table_entries(fa, ds[0].value, ds[0].node, _depth + 1)
+            return None
+        v = fa.fi.module.assigns.get(expr.id)
+        return table_entries(fa, v, at, _depth + 1) if v is not None else None
+    return None
+
+
+def strategy_table(fa):
+    """{ResultType member: strategy class name} as DefaultCodec.__init__ builds it, however the dictionary is
+    spelled: literals, comprehensions, `d[k] = v` (also in a loop over a literal sequence), `d.update(...)`."""
+    pairs = []
+    for n in A.walk_body(fa.node):
+        ids = fa.nodes(n) if isinstance(n, (ast.expr, ast.stmt)) else []
+        if not ids:
+            continue
+        if isinstance(n, (ast.Dict, ast.DictComp)) or (isinstance(n, ast.Call) and A.call_dotted(n) == "dict.fromkeys"):
+            ent = table_entries(fa, n, ids[0])
+            if ent:
+                pairs += [(k, v, ids[0]) for (k, v) in ent]
+        elif isinstance(n, ast.Assign) and len(n.targets) == 1 and isinstance(n.targets[0], ast.Subscript):
+            pairs.append((n.targets[0].slice, n.value, ids[0]))
+    table = {}
+    for (k, v, at) in pairs:
+        for kv in possible_values(fa, k, at):
+            dk = A.dotted(kv)
+            if not (dk and dk.startswith("ResultType.")):
+                continue
+            ve = fa.expand(v, at)
+            table[dk.split(".")[1]] = A.call_attr(ve) if isinstance(ve, ast.Call) else None
+    return table
 
 
 def check_exhaustive(ck, R):
@@ -28,19 +681,18 @@ def check_exhaustive(ck, R):
     fo = FA(ck, "metadata.ResultType.from_object")
     returned = set()
     for r in fo.returns():
-        d = A.dotted(r.value)
-        if d and d.startswith("ResultType."):
-            returned.add(d.split(".")[1])
+        if r.value is None or not fo.nodes(r):
+            continue
+        # the members a return can stand for (a member named directly, or picked from a literal table)
+        for v in possible_values(fo, r.value, fo.nodes(r)[0]):
+            d = A.dotted(v)
+            if d and d.startswith("ResultType."):
+                returned.add(d.split(".")[1])
     rt = ck.repo.cls("metadata.ResultType")
     members = [t.id for st in rt.node.body if isinstance(st, ast.Assign) for t in st.targets if isinstance(t, ast.Name)]
     dc = FA(ck, "storage_base.DefaultCodec.__init__")
-    dicts = [n for n in A.walk_body(dc.node) if isinstance(n, ast.Dict)]
-    keys = set()
-    for d in dicts:
-        for k in d.keys:
-            dk = A.dotted(k)
-            if dk and dk.startswith("ResultType."):
-                keys.add(dk.split(".")[1])
+    kinds = strategy_table(dc)
+    keys = set(kinds)
     miss = returned - keys
     ck.ob(R, fo.key(None, "classified-has-strategy"), not miss and bool(returned),
           "%d result types classified, all have a storage strategy" % len(returned) if not miss else
@@ -53,12 +705,6 @@ def check_exhaustive(ck, R):
     ck.ob(R, fo.key(None, "members-classified"), not unreturned, "every return-type member is produced by from_object" if not unreturned else
           "from_object never produces %s" % sorted(unreturned), fo.where())
     # strategy kinds: exception -> JSON exception strategy, null -> null strategy, partition -> partition strategy
-    kinds = {}
-    for d in dicts:
-        for k, v in zip(d.keys, d.values):
-            dk = A.dotted(k)
-            if dk and isinstance(v, ast.Call):
-                kinds[dk.split(".")[1]] = A.call_attr(v)
     want = {"exception": "JsonExceptionStrategy", "null": "NullStrategy", "partition": "PicklePartitionStrategy"}
     bad = {k: kinds.get(k) for k, w in want.items() if kinds.get(k) != w}
     ck.ob(R, dc.key(None, "special-strategies"), not bad, "exception/null/partition use their dedicated strategies" if not bad else
@@ -85,6 +731,31 @@ def check_order(ck, R):
     ck.need(n >= 4, "dispatch-order rule found only %d comparable pairs" % n)
 
 
+def _runner_sym(ck, fa, **kw):
+    """Symbolic view with the facts the runner rules share: ExistingMementoResult is a named tuple that
+    process_existing_memento returns; a constructed object's class decides isinstance tests on it; classifying a
+    MementoException yields ResultType.exception (checked on from_object's first rung)."""
+    tuples = {"ExistingMementoResult": namedtuple_fields(ck, "runner", "ExistingMementoResult")}
+    fo = ck.repo.try_func("metadata.ResultType.from_object")
+    lad = extract_ladder(fo.node) if fo is not None else []
+    exc_first = bool(lad) and lad[0][0] == ["MementoException"] and lad[0][1] == "return ResultType.exception"
+
+    def rewrite(n):
+        if exc_first and isinstance(n, ast.Call) and A.call_dotted(n) == "ResultType.from_object" and len(n.args) == 1 and not n.keywords:
+            k = exact_class(ck, n.args[0])
+            me = ck.repo.classes_named("MementoException")
+            if k is not None and len(me) == 1 and ck.repo.is_subclass(k, me[0]):
+                return ast.parse("ResultType.exception", mode="eval").body
+        return None
+
+    return Sym(fa, tuples=tuples, returns={"process_existing_memento": "ExistingMementoResult"}, rewrite=rewrite,
+               truth=lambda t: isinstance_truth(ck, t), **kw)
+
+
+def _is_call_to(e, name):
+    return isinstance(e, ast.Call) and A.call_attr(e) == name
+
+
 def check_run_record_replay(ck, R):
     ck.rule(R, "run-once / record / replay on the CFG of memento_run_local: the body is reachable only when no valid "
                "memento exists; non-memoized exceptions never reach memoize; the recorded result type classifies the "
@@ -93,12 +764,36 @@ def check_run_record_replay(ck, R):
     cfg = rl.cfg
     body = rl.one(rl.calls("_filter_call"), "_filter_call call")
     bn = rl.nodes(body)
-    # (a)
-    # tests are recognised on their expansion: "the looked-up memento" / "its processed form is valid"
-    xt = {n.id: rl.xnorm(n.ast, n.id) for n in cfg.nodes if n.kind == "test"}
-    t_exists = [i for i, t in xt.items() if t.startswith("storage_backend.get_memento(") and t.endswith(")") and " is " not in t or
-                (t.startswith("storage_backend.get_memento(") and t.endswith(" is not None"))]
-    t_valid = [i for i, t in xt.items() if t.startswith("process_existing_memento(") and t.endswith(".valid_result")]
+
+    # ---- the literals the clauses speak about, recognised on what the tested expression *is* ---------------
+    def is_lookup(e):
+        return _is_call_to(e, "get_memento")
+
+    def is_valid(e):
+        return isinstance(e, ast.Attribute) and e.attr == "valid_result" and _is_call_to(e.value, "process_existing_memento") \
+            and len(e.value.args) >= 2 and is_lookup(e.value.args[1])
+
+    def kind(e, pol):
+        """'miss' / 'found' / 'hit' for a literal about the looked-up memento."""
+        if is_lookup(e):
+            return "found" if pol else "miss"
+        if isinstance(e, ast.Compare) and isinstance(e.ops[0], ast.Is) and is_lookup(e.left) and A.is_none(e.comparators[0]):
+            return "miss" if pol else "found"
+        if is_valid(e):
+            return "hit" if pol else "miss"
+        return None
+
+    def ko_subject(e):
+        it = A.isinstance_types(e)
+        return it[0] if it and any(t.split(".")[-1] == "KeyOverrideResult" for t in it[1]) else None
+
+    def watch(tx, e):
+        return kind(e, True) is not None or ko_subject(e) is not None or _is_call_to(e, "is_memoized")
+
+    def cut_miss(d):
+        return bool(d) and all(any(kind(e, p) == "miss" for (e, p) in c) for c in d)
+
+    # (a) with every "the look-up found nothing valid" edge removed, the body cannot be reached
     lookup_calls = [c for c in rl.calls("get_memento")]
     lookups = rl.nodes_all([c for c in lookup_calls if rl.unconditional(c)])
     cond_lookups = [c for c in lookup_calls if not rl.unconditional(c)]
@@ -107,113 +802,133 @@ def check_run_record_replay(ck, R):
               "the store lookup inside memento_run_local is evaluated only under a condition (`%s`): an invocation whose result was memoized "
               "between a caller's earlier query and this point (duplicate in a batch, callee of an earlier element, another thread) runs its body again"
               % A.short(rl.pm.get(c), 70), rl.where(c))
-    ok = bool(t_exists) and bool(t_valid) and bool(lookups)
+    S = _runner_sym(ck, rl, watch=watch)
+    hit_seen = any(("hit" == kind(_parse(tx), p)) for sts in S.states.values() for (_e, lits) in sts for (tx, p) in lits if not tx.startswith("@"))
+    ok = bool(lookups) and hit_seen
     if ok:
-        live = cfg.reach([cfg.entry], edge_ok=lambda s, d, l: not ((s in t_exists or s in t_valid) and l == "F"))
-        ok = not (set(bn) & live) and all(cfg.must_pass(lookups, i) for i in bn)
+        Sc = _runner_sym(ck, rl, watch=watch, cut=cut_miss, stop=lambda lits: any(not tx.startswith("@") and kind(_parse(tx), p) == "miss" for (tx, p) in lits))
+        ok = not Sc.reached(bn) and all(cfg.must_pass(lookups, i) for i in bn)
     ck.ob(R, rl.key(body, "body-only-on-miss"), ok, "the body runs only after a lookup found no valid memento" if ok else
           "the function body can run although a valid memoized result exists (or without looking one up)", rl.where(body))
-    # served result is what the store returned
-    for r in rl.returns():
-        if r.value is not None and "call:process_existing_memento" in rl.deps(r.value):
-            xr = rl.xnorm(r.value)
-            okv = xr.startswith("process_existing_memento(") and xr.endswith(").result")
-            ck.ob(R, rl.key(None, "served-value"), okv, "a hit returns the stored value" if okv else "a hit does not return the stored value", rl.where(r))
+    # served result is what the store returned: on every path that has seen a valid memento, and wherever the
+    # processed memento flows into the returned value
+    rets = S.return_states()
+    served = []
+    for (r, env, lits, v) in rets:
+        is_hit = any(not tx.startswith("@") and kind(_parse(tx), p) == "hit" for (tx, p) in lits)
+        if is_hit or "process_existing_memento(" in v:
+            e = _parse(v)
+            served.append((r, isinstance(e, ast.Attribute) and e.attr == "result" and _is_call_to(e.value, "process_existing_memento")
+                           and len(e.value.args) >= 2 and is_lookup(e.value.args[1])))
+    okv = bool(served) and all(x for (_r, x) in served)
+    bad_r = [r for (r, x) in served if not x]
+    ck.ob(R, rl.key(None, "served-value"), okv, "a hit returns the stored value" if okv else "a hit does not return the stored value",
+          rl.where(bad_r[0] if bad_r else (served[0][0] if served else None)))
     # (b)
-    mem = rl.some([c for c in rl.calls("memoize") if A.dotted(A.call_recv(c)) == "storage_backend"], "memoize call")
+    recv = {A.norm(A.call_recv(c)) for c in lookup_calls if A.call_recv(c) is not None} or {"storage_backend"}
+    mem = rl.some([c for c in rl.calls("memoize") if A.call_recv(c) is not None and rl.xnorm(A.call_recv(c)) in {rl.xnorm(A.call_recv(c2)) for c2 in lookup_calls if A.call_recv(c2) is not None} | recv],
+                  "memoize call")
     mn = rl.nodes_all(mem)
     tr = [t for t in rl.stmts(ast.Try) if any(rl.inside(body, b) for b in t.body) and t.handlers][0]
+    def caught(h):
+        if h.type is None:
+            return []
+        return [A.norm(t) for t in (h.type.elts if isinstance(h.type, ast.Tuple) else [h.type])]
+
     for h in tr.handlers:
-        tn = A.norm(h.type) if h.type is not None else ""
         hn = [n.id for n in cfg.nodes if n.kind == "except" and n.ast is h]
-        if tn in ("NonMemoizedException", "RemoteCallException"):
-            reach = cfg.reach(hn)
-            okh = not (set(mn) & reach) and cfg.exit not in reach
-            ck.ob(R, rl.key(h, "never-recorded"), okh, "%s is re-raised and never memoized" % tn if okh else
-                  "%s can reach memoize or a normal return: it is recorded / swallowed" % tn, rl.where(h))
-    names = [A.norm(h.type) for h in tr.handlers if h.type is not None]
+        for tn in caught(h):
+            if tn in ("NonMemoizedException", "RemoteCallException"):
+                reach = cfg.reach(hn)
+                okh = not (set(mn) & reach) and cfg.exit not in reach
+                ck.ob(R, rl.key(h, "never-recorded"), okh, "%s is re-raised and never memoized" % tn if okh else
+                      "%s can reach memoize or a normal return: it is recorded / swallowed" % tn, rl.where(h))
+    names = [t for h in tr.handlers for t in caught(h)]
     for need in ("NonMemoizedException", "RemoteCallException"):
         ck.ob(R, rl.key(tr, "handler-" + need), need in names, "%s has its own handler" % need if need in names else
               "no dedicated handler for %s: it is memoized like an ordinary exception" % need, rl.where(tr))
-    # (c)
-    rts = [s for s in rl.stmts(ast.Assign) if any((A.dotted(t) or "").endswith("invocation_metadata.result_type") for t in s.targets)]
-    if len(rts) != 1:
-        ck.ob(R, rl.key(None, "result-type-recorded"), False, "result_type is assigned %d times in memento_run_local" % len(rts), rl.where())
-    else:
-        rt = rts[0]
-        v = rt.value
-        okc = isinstance(v, ast.Call) and A.call_dotted(v) == "ResultType.from_object" and len(v.args) == 1 and isinstance(v.args[0], ast.Name)
-        for c in mem:
-            val = c.args[2] if len(c.args) > 2 else A.kwarg(c, "result")
-            same = okc and isinstance(val, ast.Name) and val.id == v.args[0].id and \
-                all(rl.df.same_defs(val.id, a, b) for a in rl.nodes(rt) for b in rl.nodes(c))
-            dom = all(cfg.must_pass(rl.nodes(rt), i) for i in rl.nodes(c))
-            ck.ob(R, rl.key(c, "type-of-stored-value"), bool(same and dom),
-                  "result_type = from_object(<the value passed to memoize>), recorded before memoize" if same and dom else
-                  "the recorded result type does not classify the very value that is memoized (e.g. classified before unwrapping a key override)", rl.where(c))
-            m2 = c.args[1] if len(c.args) > 1 else A.kwarg(c, "memento")
-            okm = m2 is not None and isinstance(m2, ast.Attribute) and m2.attr == "memento" and isinstance(m2.value, ast.Name) \
-                and rl.xnorm(m2.value, rl.nodes(c)[0]).startswith("StackFrame(") and (A.dotted(rt.targets[0]) or "").startswith(A.norm(m2) + ".")
-            ck.ob(R, rl.key(c, "memento-arg"), okm, "the frame's memento (carrying result_type and provenance) is memoized" if okm else
-                  "memoize is not given stack_frame.memento", rl.where(c))
-            ko = c.args[0] if c.args else A.kwarg(c, "key_override")
-            okk = ko is not None and "getattr:key_override" in rl.deps(ko) | {"getattr:key_override" if "attr:result.key_override" in rl.deps(ko) else ""}
-            ck.ob(R, rl.key(c, "key-override-arg"), bool(okk), "the key override unwrapped from the result is honoured" if okk else
-                  "the key override of a KeyOverrideResult is not passed to memoize", rl.where(c))
-    # unwrap precedes classification
-    unwrap = [s for s in rl.stmts(ast.Assign) if len(s.targets) == 1 and isinstance(s.targets[0], ast.Name) and isinstance(s.value, ast.Attribute)
-              and s.value.attr == "result" and isinstance(s.value.value, ast.Name) and s.value.value.id == s.targets[0].id]
-    oku = bool(unwrap) and bool(rts) and all(cfg.must_pass(rl.nodes(unwrap[0]), i, edge_ok=None) or True for i in rl.nodes(rts[0]))
-    if unwrap and rts:
-        g = rl.enclosing(unwrap[0], ast.If)
-        oku = g is not None and any((A.isinstance_types(t_) or ("", []))[0] == unwrap[0].targets[0].id and "KeyOverrideResult" in A.isinstance_types(t_)[1]
-                                    for t_ in A.conj_atoms(g.test) if A.isinstance_types(t_)) and \
-            not (set(rl.nodes(unwrap[0])) & cfg.reach(rl.nodes(rts[0]), include_start=False))
+    # (c) in every state in which memoize is called: what the store holds for <memento>.invocation_metadata.result_type
+    # is from_object(<the value being memoized>), and <memento> is the frame's memento
+    any_ko = False
+    ok_ko = True
+    for c in mem:
+        a_key, a_mem, a_val = A.arg_or_kw(c, 0, "key_override"), A.arg_or_kw(c, 1, "memento"), A.arg_or_kw(c, 2, "result")
+        sts = S.at(c)
+        ck.need(a_mem is not None and a_val is not None and sts, "memento_run_local: memoize(key_override, memento, result) call not understood")
+        same, okm, recorded = True, True, True
+        for (env, lits) in sts:
+            m_txt, v_txt = S.text(a_mem, env), S.text(a_val, env)
+            rt = env.get(m_txt + ".invocation_metadata.result_type")
+            if rt is None:
+                recorded = False
+            want = A.norm(S.simplify(_parse("ResultType.from_object(%s)" % v_txt)))
+            same = same and rt is not None and rt == want
+            me = _parse(m_txt)
+            okm = okm and isinstance(me, ast.Attribute) and me.attr == "memento" and _is_call_to(me.value, "StackFrame") and rt is not None
+            for (tx, p) in lits:
+                subj = None if tx.startswith("@") else ko_subject(_parse(tx))
+                if subj is not None and p:
+                    any_ko = True
+                    k_txt = S.text(a_key, env) if a_key is not None else ""
+                    if not (v_txt == A.norm(_parse("(%s).result" % subj)) and k_txt == A.norm(_parse("(%s).key_override" % subj)) and rt == want):
+                        ok_ko = False
+        if not recorded:
+            ck.ob(R, rl.key(None, "result-type-recorded"), False, "memoize can be reached without result_type having been recorded on the memento it is given", rl.where(c))
+        ck.ob(R, rl.key(c, "type-of-stored-value"), bool(same),
+              "result_type = from_object(<the value passed to memoize>), recorded before memoize" if same else
+              "the recorded result type does not classify the very value that is memoized (e.g. classified before unwrapping a key override)", rl.where(c))
+        ck.ob(R, rl.key(c, "memento-arg"), bool(okm), "the frame's memento (carrying result_type and provenance) is memoized" if okm else
+              "memoize is not given stack_frame.memento", rl.where(c))
+        ko = a_key
+        okk = ko is not None and "getattr:key_override" in rl.deps(ko) | {"getattr:key_override" if "attr:result.key_override" in rl.deps(ko) else ""}
+        ck.ob(R, rl.key(c, "key-override-arg"), bool(okk), "the key override unwrapped from the result is honoured" if okk else
+              "the key override of a KeyOverrideResult is not passed to memoize", rl.where(c))
+    # unwrap precedes classification: whenever the computed value was seen to be a KeyOverrideResult, its .result is
+    # what is classified and memoized, under its .key_override
+    oku = any_ko and ok_ko
     ck.ob(R, rl.key(None, "unwrap-before-classify"), bool(oku), "a KeyOverrideResult is unwrapped before the value is classified" if oku else
           "a KeyOverrideResult is not unwrapped before classification", rl.where())
-    # (d)
-    gen = [h for h in tr.handlers if h.type is not None and A.norm(h.type) == "Exception" and h.name]
+    # (d) on the paths through the handler of ordinary exceptions
+    gen = [h for h in tr.handlers if h.type is not None and A.norm(h.type) == "Exception"]
     okd = False
+    exc_rets = []
     if gen:
         h = gen[0]
-        conv = [s for s in A.walk_local(h) if isinstance(s, ast.Assign) and isinstance(s.value, ast.Call)
-                and A.call_dotted(s.value) == "MementoException.from_exception" and [A.norm(a) for a in s.value.args] == [h.name]]
-        if conv:
-            tgt = conv[0].targets[0]
-            for c in mem:
-                val = c.args[2] if len(c.args) > 2 else None
-                if isinstance(val, ast.Name) and isinstance(tgt, ast.Name) and tgt.id == val.id:
-                    ds = []
-                    for i in rl.nodes(c):
-                        ds += rl.df.reaching(i, val.id)
-                    okd = any(d.stmt is conv[0] for d in ds)
-        keep = [s for s in A.walk_local(h) if isinstance(s, ast.Assign) and A.norm(s.value) == h.name]
-        okd = okd and bool(keep)
+        mark, tok = S.handler_mark(h), S.exc_token(h)
+        vals = []
+        for c in mem:
+            a_val = A.arg_or_kw(c, 2, "result")
+            for (env, lits) in S.at(c):
+                if mark in lits and not any(p and not tx.startswith("@") and ko_subject(_parse(tx)) for (tx, p) in lits):
+                    vals.append(S.text(a_val, env))
+        exc_rets = [(r, v) for (r, env, lits, v) in rets if mark in lits]
+        okd = bool(vals) and all(v == "MementoException.from_exception(%s)" % tok for v in vals) and any(v == tok for (_r, v) in exc_rets)
     ck.ob(R, rl.key(tr, "exception-recorded"), okd, "an ordinary exception is converted to a MementoException, memoized, and kept for re-raising" if okd else
           "an ordinary exception raised by the body is not converted with MementoException.from_exception and memoized", rl.where(tr))
     # the original exception object is what the caller gets
-    kept = {s_.targets[0].id for h_ in gen for s_ in A.walk_local(h_) if isinstance(s_, ast.Assign) and A.norm(s_.value) == h_.name
-            and isinstance(s_.targets[0], ast.Name)}
-    er = [r for r in rl.returns() if isinstance(r.value, ast.Name) and r.value.id in kept]
-    g_ok = False
-    for r in er:
-        g = rl.enclosing(r, ast.If)
-        if g is not None and A.norm(g.test) == "%s is not None" % r.value.id:
-            g_ok = True
+    g_ok = bool(gen) and any(v == tok for (_r, v) in exc_rets) and all(v in (tok, "None") for (_r, v) in exc_rets)
     ck.ob(R, rl.key(None, "exception-returned"), g_ok, "a failing first call hands the original exception to the caller" if g_ok else
           "a failing first call does not return its exception object", rl.where())
-    # memoize only if not already memoized
-    im = [n.id for n in cfg.nodes if n.kind == "test" and "is_memoized" in A.norm(n.ast)]
-    oki = bool(im) and all(cfg.must_pass(im, i) for i in mn)
-    if oki:
-        for c in A.calls_in(cfg.node(im[0]).ast):
-            if A.call_attr(c) == "is_memoized":
-                oki = [A.norm(a) for a in c.args] == ["fn_reference_with_args.fn_reference", "fn_reference_with_args.arg_hash"]
+    # memoize only if not already memoized: every state calling memoize has seen is_memoized(<this call>) answer no
+    look_arg = None
+    for c in lookup_calls:
+        if c.args and _is_call_to(c.args[0], "fn_reference_with_arg_hash") and A.call_recv(c.args[0]) is not None:
+            look_arg = rl.xnorm(A.call_recv(c.args[0]))
+    oki = look_arg is not None
+    for c in mem:
+        for (env, lits) in S.at(c):
+            seen_no = False
+            for (tx, p) in lits:
+                e = None if tx.startswith("@") else _parse(tx)
+                if e is not None and _is_call_to(e, "is_memoized") and not p and A.call_recv(e) is not None and A.call_recv(c) is not None \
+                        and A.norm(A.call_recv(e)) == S.text(A.call_recv(c), env):
+                    if [A.norm(x) for x in e.args] == ["%s.fn_reference" % look_arg, "%s.arg_hash" % look_arg] and not e.keywords:
+                        seen_no = True
+            oki = oki and seen_no
     ck.ob(R, rl.key(None, "memoize-iff-absent"), oki, "the result is memoized unless the same call was memoized meanwhile" if oki else
           "memoize is not guarded by is_memoized(fn_reference, arg_hash) of this call", rl.where())
     # ignore_result: exceptions still surface
-    ig = [n for n in cfg.nodes if n.kind == "test" and "ignore_result" in A.norm(n.ast)]
-    oke = bool(ig) and all("ResultType.exception" in A.norm(n.ast) for n in ig)
+    oke = bool(exc_rets) and all(v != "None" for (_r, v) in exc_rets)
     ck.ob(R, rl.key(None, "ignore-result-keeps-exceptions"), oke, "ignore_result suppresses values but not exceptions" if oke else
           "ignore_result also suppresses exceptions", rl.where())
 
@@ -223,33 +938,59 @@ def check_replay(ck, R):
                "to_exception, which never raises (every may-raise step is covered by a handler that returns self)", 5)
     pe = FA(ck, "runner.process_existing_memento")
     rr = pe.one(pe.calls("read_result"), "read_result call")
-    okr = [A.norm(a) for a in rr.args] == ["existing_memento"]
+    pe_params = pe.fi.params
+    rr_arg = A.arg_or_kw(rr, 0, "memento")
+    okr = rr_arg is not None and len(pe_params) >= 2 and pe.xnorm(rr_arg) == pe_params[1] and len(rr.args) + len(rr.keywords) == 1
     ck.ob(R, pe.key(rr, "reads-own-memento"), okr, "the value is read for the memento at hand" if okr else
           "read_result is not called with the existing memento", pe.where(rr))
-    te = pe.calls("to_exception")
-    okt = False
-    for c in te:
-        g = pe.enclosing(c, ast.If)
-        if g is not None:
-            for t_ in A.conj_atoms(g.test):
-                ty = A.isinstance_types(t_)
-                if ty and "MementoException" in ty[1] and "call:read_result" in pe.deps(t_.args[0]) \
-                        and A.call_recv(c) is not None and "call:read_result" in pe.deps(A.call_recv(c)):
-                    okt = True
+    # what the function returns, per path class: ExistingMementoResult(result=<r>, valid_result=<v>) over the symbolic store
+    fields = namedtuple_fields(ck, "runner", "ExistingMementoResult")
+
+    def watch(tx, e):
+        it = A.isinstance_types(e)
+        return "ignore_result" in A.names_in(e) or "result_type" in A.attrs_in(e) or bool(it and "MementoException" in [t.split(".")[-1] for t in it[1]])
+
+    S = _runner_sym(ck, pe, watch=watch)
+    read = {S.text(rr, env) for (env, _l) in S.at(rr)}
+    ck.need(len(read) == 1, "process_existing_memento: read_result call not understood")
+    read = read.pop()
+    outs = []  # (return stmt, literals, result text, valid text)
+    for (r, env, lits, v) in S.return_states():
+        e = _parse(v)
+        if isinstance(e, ast.Call) and A.call_attr(e) == "ExistingMementoResult" and not any(isinstance(x, ast.Starred) for x in e.args):
+            fr, fv = A.arg_or_kw(e, 0, fields[0]), A.arg_or_kw(e, 1, fields[1])
+            outs.append((r, lits, A.norm(fr) if fr is not None else None, A.norm(fv) if fv is not None else None))
+        else:
+            outs.append((r, lits, None, None))
+    ck.need(outs, "process_existing_memento: no return reached")
+    is_exc = "isinstance(%s, MementoException)" % read
+    unwrapped = A.norm(_parse("(%s).to_exception()" % read))
+    valid = [o for o in outs if o[3] != "False"]  # every answer that is not "recompute"
+    on_exc = [o for o in valid if (is_exc, True) in o[1]]
+    okt = bool(on_exc) and all(o[2] == unwrapped and o[3] == "True" for o in on_exc)
     ck.ob(R, pe.key(None, "unwraps-exception"), okt, "a stored MementoException is rebuilt into the original exception class" if okt else
           "a stored MementoException is not passed through to_exception()", pe.where())
-    rets = [r for r in pe.returns() if isinstance(r.value, ast.Call) and A.norm(A.kwarg(r.value, "valid_result")) == "True"
-            and A.kwarg(r.value, "result") is not None and not A.is_none(A.kwarg(r.value, "result"))]
-    okv = len(rets) == 1 and "call:read_result" in pe.deps(A.kwarg(rets[0].value, "result")) and isinstance(A.kwarg(rets[0].value, "result"), ast.Name)
+    with_value = [o for o in valid if o[2] != "None"]
+    okv = bool(with_value) and all(o[3] == "True" and o[2] in (read, unwrapped) for o in with_value) and any(o[2] == read for o in with_value) \
+        and all(o[2] == read for o in with_value if (is_exc, False) in o[1])
     ck.ob(R, pe.key(None, "returns-read-value"), okv, "the value read back is returned as valid" if okv else
           "process_existing_memento does not return the value it read", pe.where())
-    ign = [r for r in pe.returns() if isinstance(r.value, ast.Call) and A.is_none(A.kwarg(r.value, "result")) and A.norm(A.kwarg(r.value, "valid_result")) == "True"]
-    oki = bool(ign) and all(pe.enclosing(r, ast.If) is not None and "ignore_result" in A.names_in(pe.enclosing(r, ast.If).test) for r in ign)
+    ign = [o for o in valid if o[2] == "None"]
+    oki = bool(ign) and all(("ignore_result", True) in o[1] for o in ign)
     ck.ob(R, pe.key(None, "ignore-means-valid-none"), oki, "(None, valid) is returned only under ignore_result" if oki else
           "a valid-but-empty answer is returned outside ignore_result", pe.where())
     # sibling agreement with the computing path (memento_run_local suppresses the value only when
     # the result is not an exception): a recorded exception is replayed under ignore_result too
-    okx = bool(ign) and all("exception" in A.norm(pe.enclosing(r, ast.If).test) and "result_type" in A.norm(pe.enclosing(r, ast.If).test) for r in ign if pe.enclosing(r, ast.If) is not None)
+    def not_exception(lits):
+        for (tx, p) in lits:
+            e = None if tx.startswith("@") else _parse(tx)
+            if isinstance(e, ast.Compare) and isinstance(e.ops[0], (ast.Eq, ast.Is)) and not p:  # enum members: == and `is` agree
+                sides = [A.norm(e.left), A.norm(e.comparators[0])]
+                if "ResultType.exception" in sides and any(x.endswith(".invocation_metadata.result_type") and x.startswith("existing_memento") for x in sides):
+                    return True
+        return False
+
+    okx = bool(ign) and all(not_exception(o[1]) for o in ign)
     ck.ob(R, pe.key(None, "ignore-keeps-exceptions"), okx, "ignore_result does not suppress a recorded exception" if okx else
           "under ignore_result a memoized call answers (None, valid) without looking at the recorded result type: the first call raises the "
           "function's exception, every later call returns None", pe.where())
@@ -273,6 +1014,31 @@ def check_replay(ck, R):
           "to_exception no longer imports the module that defines the recorded exception class (e.g. it only consults sys.modules): in a "
           "process that has not loaded that module the replay raises MementoException instead of the recorded class", tx.where())
     ck.need(len(risky) >= 2, "to_exception: expected getattr / constructor call")
+    TS = Sym(tx)
+    falls_off = {s_ for (s_, l_) in tx.cfg.pred[tx.cfg.exit] if not isinstance(tx.cfg.node(s_).ast, ast.Return)}
+    mod_consts = tx.fi.module.assigns
+
+    def handler_types(h):
+        if h.type is None:
+            return ["BaseException"]
+        t = h.type
+        if isinstance(t, ast.Name) and isinstance(mod_consts.get(t.id), ast.Tuple):
+            t = mod_consts[t.id]  # a module-level tuple of exception classes
+        return [A.norm(x) for x in (t.elts if isinstance(t, ast.Tuple) else [t])]
+
+    def returns_self(h):
+        """Once in the handler, the function can only end by returning self: no raise inside the handler, no falling
+        off the end, and every return reached on a path through the handler yields `self` in the symbolic store."""
+        hn = [n_.id for n_ in tx.cfg.nodes if n_.kind == "except" and n_.ast is h]
+        if not hn:
+            return False
+        after = tx.cfg.reach(hn)
+        if any(isinstance(x, ast.Raise) and set(tx.nodes(x)) & after for x in A.walk_local(h)) or falls_off & after:
+            return False
+        mark = TS.handler_mark(h)
+        vals = [v for (_r, _env, lits, v) in TS.return_states() if mark in lits]
+        return bool(vals) and all(v == "self" for v in vals)
+
     for (c, exc_names, what) in risky:
         covered = False
         n = c
@@ -280,11 +1046,11 @@ def check_replay(ck, R):
             p = tx.pm.get(n)
             if isinstance(p, ast.Try) and any(tx.inside(c, b) for b in p.body):
                 for h in p.handlers:
-                    hts = [A.norm(t) for t in (h.type.elts if isinstance(h.type, ast.Tuple) else [h.type])] if h.type is not None else ["BaseException"]
-                    if set(hts) & set(exc_names) | ({"x"} if "ImportError" in hts and "ModuleNotFoundError" in exc_names else set()):
-                        rets = [x for x in A.walk_local(h) if isinstance(x, ast.Return)]
-                        if rets and all(A.norm(r.value) == "self" for r in rets) and not any(isinstance(x, ast.Raise) for x in A.walk_local(h)):
+                    hts = handler_types(h)
+                    if (set(hts) & (set(exc_names) | {"BaseException"})) or ("ImportError" in hts and "ModuleNotFoundError" in exc_names):
+                        if returns_self(h):
                             covered = True
+                        break  # the first matching handler is the one that runs
             n = p
         ck.ob(R, tx.key(c, "total"), covered, "%s is covered by a handler that returns self" % what if covered else
               "%s can raise %s out of to_exception: replaying a memoized exception whose class cannot be located "
@@ -292,9 +1058,13 @@ def check_replay(ck, R):
     # from_exception keeps message and qualified class name
     fe = FA(ck, "exception.MementoException.from_exception")
     mk = fe.one(fe.calls("MementoException"), "MementoException(...) in from_exception")
-    d0 = fe.deps(mk.args[0]) if mk.args else set()
-    okn = "getattr:__module__" in d0 | {"getattr:__module__" if any("__module__" in x for x in d0) else ""} and any("__qualname__" in x for x in d0) \
-        and len(mk.args) > 1 and A.norm(mk.args[1]) == "str(e)"
+    a_name, a_msg = A.arg_or_kw(mk, 0, "exception_name"), A.arg_or_kw(mk, 1, "message")
+    exc_param = (fe.fi.params or ["e"])[0]
+    d0 = fe.deps(a_name) if a_name is not None else set()
+    okn = "getattr:__module__" in d0 | {"getattr:__module__" if any("__module__" in x for x in d0) else ""} and any("__qualname__" in x for x in d0)
+    # the message is str(<the exception>) in any spelling (str(), f-string, format)
+    msg_parts = A.str_parts(fe.expand(a_msg)) if a_msg is not None else None
+    okn = okn and msg_parts is not None and len(msg_parts) == 1 and msg_parts[0][0] == "expr" and A.norm(msg_parts[0][1]) == exc_param
     ck.ob(R, fe.key(mk, "records-class-and-message"), okn, "the exception's module, qualified class name and message are recorded" if okn else
           "from_exception does not record module:qualname and str(e)", fe.where(mk))
 
@@ -303,11 +1073,13 @@ def check_exception_surface(ck, R):
     """The exception object produced by the runner is raised to the caller of call(); the stored
     form of an exception is read with the keys it is written with."""
     cl = FA(ck, "base.MementoFunctionBase.call")
-    raises = [r for r in cl.stmts(ast.Raise) if isinstance(r.exc, ast.Name)]
+    raises = [r for r in cl.stmts(ast.Raise) if r.exc is not None and cl.nodes(r)]
     ok = False
     for r in raises:
-        g = cl.enclosing(r, ast.If)
-        if g is not None and A.norm(g.test) == "isinstance(%s, Exception)" % r.exc.id and "op:subscript" in cl.deps(r.exc) and "call:memento_run_batch" in cl.deps(r.exc):
+        # the raise is reached exactly when the slot holds an exception, and raises that slot
+        conds = cl.conditions(r)
+        want = ("isinstance(%s, Exception)" % cl.xnorm(r.exc), True)
+        if conds and all(want in c for c in conds) and "op:subscript" in cl.deps(r.exc) and "call:memento_run_batch" in cl.deps(r.exc):
             ok = True
     ck.ob(R, cl.key(None, "raises-result-exception"), ok, "call() raises the exception found in its result slot" if ok else
           "call() does not raise an exception returned in its result slot: a failing (or replayed failing) call returns the exception object as a value", cl.where())
@@ -324,15 +1096,23 @@ def check_exception_surface(ck, R):
     ck.ob(R, enc.key(None, "exception-fields"), okk, "stored exceptions are read with the fields they are written with %s" % sorted(wk) if okk else
           "stored exception fields differ: written %s, read %s" % (sorted(wk), sorted(rk)), enc.where())
     ctor = ld.one(ld.calls("MementoException"), "MementoException(...) in load")
-    order = [A.const_str(a.slice) if isinstance(a, ast.Subscript) else None for a in ctor.args]
-    oko = order == ["exception_name", "message", "stack_trace"]
+    want_order = ["exception_name", "message", "stack_trace"]
+    order = []
+    for i, nm in enumerate(want_order):
+        a = A.arg_or_kw(ctor, i, nm)
+        a = ld.expand(a) if a is not None else None
+        order.append(A.const_str(a.slice) if isinstance(a, ast.Subscript) else None)
+    oko = order == want_order
     ck.ob(R, ld.key(ctor, "field-order"), oko, "name, message and stack trace are restored in their positions" if oko else
           "MementoException is rebuilt with fields in the wrong positions: %s" % order, ld.where(ctor))
-    msg = [k for d in [n for n in A.walk_body(enc.node) if isinstance(n, ast.Dict)] for k, v in zip(d.keys, d.values) if A.const_str(k) == "message" and A.norm(v) == "obj.message"]
+    enc_obj = (enc.fi.params + ["obj", "obj"])[1]
+    msg = [k for d in [n for n in A.walk_body(enc.node) if isinstance(n, ast.Dict)] for k, v in zip(d.keys, d.values)
+           if A.const_str(k) == "message" and enc.nodes(v) and enc.xnorm(v) == enc_obj + ".message"]
     ck.ob(R, enc.key(None, "message-preserved"), bool(msg), "the original message is stored" if msg else "the stored exception does not keep obj.message", enc.where())
     vp = FA(ck, "storage_base.DefaultCodec.ValuePickleStrategy.encode")
     vl = FA(ck, "storage_base.DefaultCodec.ValuePickleStrategy.load")
-    okp = any(A.call_dotted(c) == "pickle.dumps" and [A.norm(a) for a in c.args] == ["obj"] for c in vp.calls()) and \
+    vp_obj = (vp.fi.params + ["obj", "obj"])[1]
+    okp = any(A.call_dotted(c) == "pickle.dumps" and c.args and vp.xnorm(c.args[0]) == vp_obj for c in vp.calls()) and \
         any(A.call_dotted(c) == "pickle.loads" for c in vl.calls()) and all(("call:dumps" in vp.deps(r.value)) for r in vp.returns() if r.value is not None)
     ck.ob(R, vp.key(None, "pickle-pair"), okp, "values are stored with pickle.dumps(obj) and read with pickle.loads" if okp else
           "the value strategy no longer pairs pickle.dumps(obj) with pickle.loads", vp.where())
